@@ -328,7 +328,16 @@ def r18f(P, R):
             "human renderer handles builtin positions", "print_positioned_error does not test `builtin`", loc=ppe.loc())
 
 
-RULES = [("R18-a", r18a), ("R18-b", r18b), ("R18-c", r18c), ("R18-c", gate), ("R18-d", r18d), ("R18-e", r18e), ("R18-f", r18f)]
+def r18pc(P, R):
+    from facts import Program
+    SC = Program(harness.selfcheck_facts())
+    pr = [f.name for f in SC.fns.values() for n in f.walk() if n.get("k") == "Call" and (call_name(n) or "") == "std::io::stdio::_print"]
+    R.check("R18-pc", "control:stdout", pr == ["prints"], "stdout-writer control detected", "self-check: println! in the control crate is seen as %s" % pr)
+    wr = [f.name for f, c, n in SC.ext_callers(lambda p: p.startswith(WRITE_APIS))]
+    R.check("R18-pc", "control:fs-write", wr == ["writes"], "file-system-write control detected", "self-check: fs::write in the control crate is seen as %s" % wr)
+
+
+RULES = [("R18-pc", r18pc), ("R18-a", r18a), ("R18-b", r18b), ("R18-c", r18c), ("R18-c", gate), ("R18-d", r18d), ("R18-e", r18e), ("R18-f", r18f)]
 EXPLANATION = (
     "Call-graph and control-context facts that hold on all executions: (R18-a) one process::exit site whose code is 0 exactly in "
     "the Ok arm, every diagnostic-recording site lies on a path that returns Err, check succeeds only under errors.is_empty(); "
